@@ -5,7 +5,7 @@
 for pid in "$@"; do
  n=${SEEDN:-6}
  for ab in A B; do
-  src=/tmp/s4_$pid/_out/$ab
+  src=${SRCROOT:-/tmp/s4_}$pid/_out/$ab
   [ -f $src/patch.diff ] || { echo "$pid $ab: no delivery" | tee -a /verif/seeded/ACCEPT.txt; n=$((n+1)); continue; }
   id=$pid-$n; dst=/verif/seeded/$id; n=$((n+1))
   W=/tmp/acc_$id; rm -rf $W; mkdir -p $W
